@@ -3,7 +3,7 @@
 for spec in "$@"; do
   n=${spec%%:*}; p=${spec#*:}
   git -C /repo apply /verif/seeded/$n/patch.diff || { echo "$n: patch failed"; continue; }
-  out=$(cd /verif && ./check $p --tier ${TIER:-quick} 2>&1); rc=$?
+  out=$(cd /verif && timeout 1500 ./check $p --tier ${TIER:-quick} 2>&1); rc=$?
   git -C /repo checkout -q -- . ; git -C /repo clean -fdq
   echo "$n $p: $(echo "$out" | grep -c '^VIOLATION') violation(s)"
   echo "$out" | grep -- '->' | head -${SHOW:-2} | cut -c1-330
